@@ -3,6 +3,7 @@
 // verdict is taken by TLC evaluating the TLA+ specification on those traces.
 #pragma once
 
+#include <ctime>
 #include <cstdint>
 #include <cstdio>
 #include <cstdlib>
@@ -24,6 +25,8 @@
 using json = nlohmann::json;
 
 namespace vh {
+// CPU time of this process in ms (C03's "time proportional to the input" is judged on CPU time: wall time depends on the load)
+inline long cpu_ms() { timespec ts; clock_gettime(CLOCK_PROCESS_CPUTIME_ID, &ts); return ts.tv_sec * 1000L + ts.tv_nsec / 1000000L; }
 
 // ---- trace output -------------------------------------------------------
 struct Trace {
